@@ -28,6 +28,9 @@ def optErr : Option Err → String
   | none => "-"
   | some e => errStr e
 
+/-- FNV-1a, 32 bit (only to keep answer lines short). -/
+def fnv32 (b : Bytes) : Nat := b.foldl (fun h x => ((h ^^^ x) * 16777619) % 4294967296) 2166136261
+
 def nonAscii (b : Bytes) : Bool := b.any (· ≥ 128)
 
 /-- Canonical form of a stream-sniffing answer on buffer `buf` (see the design note: names and
@@ -192,6 +195,14 @@ def handle (line : String) : String :=
         (s2, (acc.2.1 ++ [s!"{rs}/{boolStr s2.needMore}"], acc.2.2 ++ [s!"{s2.nextRead}/{s2.cryptos.length}"]))) (({} : Pkt), ([], []))
       let intact := st.data == [[]] ++ ds
       " ".intercalate outs.1 ++ s!" intact={boolStr intact} # " ++ " ".intercalate outs.2
+    | _, _ => "bad-op"
+  | ["pkt", orc, dgs] =>
+    match parseOracle orc, (dgs.splitOn ",").mapM unhx with
+    | some o, some ds =>
+      let (outs, f) := Flow.run o {} ds
+      let step (l : List Bytes) : String :=
+        if l = [] then "-" else ",".intercalate (l.map fun b => s!"{b.length}:{fnv32 b}")
+      " ".intercalate (outs.map step) ++ s!" held={f.withheld.length} dom={hx f.domain}"
     | _, _ => "bad-op"
   | _ => "bad-op"
 
